@@ -389,6 +389,10 @@ def run(prog, rep, tier):
     run_function(S, f)
     MODEL = {"W", "means", "variances", "p"}
     model_history(rep, S, f, MODEL, "HISTORY.sample")
+    # the law is that of the model *as constructed*: weights, means and variances are the object's own copies (an array the caller keeps and
+    # refills for the next model would otherwise change this one)
+    from .common import ctor_copies
+    ctor_copies(rep, prog, LG + "LGANM.__init__", attrs=("W", "means", "variances"), rule="CTOR.own")
     ctor = [c for c in S.select("call", qname=f.qname) if c.target == "sempler.normal_distribution.NormalDistribution.__init__"]
     if len(ctor) > 1:
         # several constructions: the one built from the working copies is judged (others were reported above when they read hidden state)
